@@ -195,6 +195,11 @@ class Gen:
             x = self.rng.below(100)
             if x < 4 and self.actions and self.actions[-1][0] == self.th.index(th):
                 dt = 0          # same instant as the previous event of the same thread (ties across threads stay out: see ASSUMPTIONS)
+            elif mcv == "OHx" and th.state == "U" and x < 10 and all(any(t.loom is l and t.state != "U" for t in self.th) for l in self.w.looms):
+                # (every loom has a thread that started early: the emulator still refuses LOOMS that start an hour apart)
+                # a thread that starts hours after the first one of its loom (a long-running program spawning a worker)
+                dt = 2 * 3600 * 10 ** 9 + self.rng.below(3600 * 10 ** 9)
+                self.probe("thread started more than an hour after its loom's first")
             elif x < 6:
                 # gaps that do not fit in 32 bits (their sum stays far below the hour at which the emulator
                 # takes two streams for unsynchronised)
@@ -447,10 +452,6 @@ class Gen:
             opts.append(("resume", 5))
         runnable = self.runnable_tasks(th, m)
         can_nest = top is None or top.state == "paused" or "relax" in top.task.flags
-        # Nanos6 refuses a "task body" region directly over another one; the
-        # runtime always has a region in between (stay inside its grammar)
-        if m == "nanos6" and ss and ss[-1] == body_label:
-            can_nest = False
         if runnable and can_nest and len(stack) < 4:
             opts.append(("exec", 6))
         if not opts:
